@@ -1305,7 +1305,7 @@ class GQ:
         return f"({self.re}+{self.im}j)"
 
 
-def pc_evolver_rule(chk, src, rule, tableaux):
+def pc_evolver_rule(chk, src, rule, tableaux, rule_adaptive=None, rule_error=None):
     """abstract run of the three propagate-and-compress evolvers on states of a free algebra: a state is a linear combination of words H(t_k)...H(t_1) y with exact
     (complex rational) coefficients, an operator application prepends its time, scale / add / compressed_sum are the algebra's operations, compression is the identity.
     The step T is a generic rational, so that the times t0 + c_i tau of different stages and sub-steps are distinct letters.
@@ -1464,10 +1464,10 @@ def pc_evolver_rule(chk, src, rule, tableaux):
         want_r = [(e1, w1), (e2, w2), (e2, w2)]
         got_r = script["ratios"]
         ok_r = len(got_r) == 3 and all(n.kind == "norm" and d.kind == "norm" and lin(n.terms) == wn and lin(d.terms) == wd for (n, d), (wn, wd) in zip(got_r, want_r))
-        chk.ob(rule, f"general RK evolver[{m}], adaptive: error estimate of every trial", ok_r, fi.where,
+        chk.ob(rule_error or rule, f"general RK evolver[{m}], adaptive: error estimate of every trial", ok_r, fi.where,
                [(n.kind, d.kind, lin(n.terms) == wn, lin(d.terms) == wd) for (n, d), (wn, wd) in zip(got_r, want_r)] if not ok_r else "equal", "equal", line=fi.node.lineno,
                detail="the relative error of a trial step is ||tau sum_i (b_i - b*_i) k_i|| / ||trial state||, both full norms (prefactor included)")
-        chk.ob(rule, f"general RK evolver[{m}], adaptive: accepted T/3, rejected trial, accepted 2T/3", ok, fi.where, "differs from the composition of the accepted steps" if not ok else "equal", "equal",
+        chk.ob(rule_adaptive or rule, f"general RK evolver[{m}], adaptive: accepted T/3, rejected trial, accepted 2T/3", ok, fi.where, "differs from the composition of the accepted steps" if not ok else "equal", "equal",
                line=fi.node.lineno, detail="an adaptive run must be the composition of its accepted sub-steps, each evaluated at the time already covered (t0 + c_i tau) and started from the last "
                                            "accepted state; a rejected trial must leave no trace")
     # ---- (2) the hard-coded RK4 evolver
@@ -2722,3 +2722,115 @@ def tdvp_bookkeeping_rule(chk, src, rule_labels=None, rule_fresh=None, rule_ofs=
                            line=fi.node.lineno, detail=f"{qual} may swap two sites of the state without swapping the operator with the same model and flag: " + (po[0] if po else ""))
                 if any(e[0] == "swap" for e in ev):
                     chk.ob(rule_ofs, f"{tag}, swapping off: no operator swap", False, fi.where, "the operator is swapped although on-the-fly swapping is off", "no swap", line=fi.node.lineno)
+
+
+class KV(float):
+    """a norm-like number of an abstract run that remembers whether the scalar prefactor of the state is in it ('full') or not ('bare': mp_norm, distance); a division of
+    two of them is logged"""
+    def __new__(cls, v, kind, log):
+        o = float.__new__(cls, v)
+        o.kind, o.log = kind, log
+        return o
+
+    def __truediv__(self, o):
+        if isinstance(o, KV):
+            self.log.append((self.kind, o.kind))
+        return float(self) / float(o)
+
+
+def taylor_adaptive_rule(chk, src, rule, rule_kind=None):
+    """abstract run of the adaptive branch of Mps._evolve_prop_and_compress (Taylor propagator with step-size control) in the commutative algebra of powers of a
+    time-independent H with symbolic Taylor coefficients c_k: states are polynomials sum_k a_k H^k y, `contract` raises the power, the error estimate (distance of the two
+    partial sums) is scripted: accept a first sub-step, reject the next trial, accept the rest.  The result must be the product of the Taylor propagators of exactly the
+    accepted sub-steps, whose lengths add up to the requested step; a rejected trial leaves no trace; the input state and its configuration are left as they were."""
+    import sympy as sp
+    ft = src.func(MPS, "Mps._evolve_prop_and_compress")
+    resolve = class_resolver(src, {"Mps": MPS})
+    order = 3
+    cs = [sp.Symbol(f"c{k}") for k in range(order + 1)]
+    H = sp.Symbol("H")
+    for name, script in (("accept, reject, accept ...", [1e-9, 0.0156] + [1e-9] * 40), ("reject twice, then accept", [0.0156, 0.0156] + [1e-9] * 40), ("accept at once", [1e-9] * 40)):
+        trials, sc, kinds = [], list(script), []
+
+        class StS(Sym):
+            def __init__(self, poly, cfg):
+                super().__init__("state")
+                self._cls = "Mps"
+                self.poly, self.evolve_config = sp.expand(poly), cfg
+                self.compress_config = Sym("cc", copy=lambda: Sym("cc2", criteria="c"), criteria="c")
+                self.mp_norm, self.norm = KV(1.0, "bare", kinds), KV(1.0, "full", kinds)
+
+            def scale(self, c_, inplace=False):
+                p_ = sp.expand(self.poly * sp.nsimplify(complex(c_), rational=False) if not isinstance(c_, sp.Basic) else self.poly * c_)
+                if inplace:
+                    self.poly = p_
+                    return self
+                return StS(p_, self.evolve_config)
+
+            def add(self, o):
+                return StS(self.poly + o.poly, self.evolve_config)
+
+            __add__ = add
+
+            def distance(self, o):
+                if not sc:
+                    raise AnalysisError("taylor adaptive: more trial steps than scripted")
+                trials[-1]["dis"] = sc.pop(0)
+                trials[-1]["pair"] = (self.poly, o.poly)
+                return KV(trials[-1]["dis"], "bare", kinds)
+
+            def copy(self):
+                return StS(self.poly, self.evolve_config)
+
+            def canonicalise(self, *a, **k):
+                return self
+
+            def compress(self, *a, **k):
+                return self
+
+        def min_abs(a, b):
+            r = a if abs(a) < abs(b) else b
+            trials.append({"dt": r, "remaining": b})
+            return r
+
+        def csum(lst, *a, **k):
+            lst = list(lst)
+            out = lst[0]
+            for x in lst[1:]:
+                out = out.add(x)
+            return StS(out.poly, out.evolve_config)
+        cfg = Sym("evolve_config", taylor_config=Sym("taylor", coeff=cs), adaptive=True, check_valid_dt=lambda dt_: None, guess_dt=1.0 / 3, adaptive_rtol=1e-3)
+        me = StS(sp.Integer(1), cfg)
+        hop = Sym("H", contract=lambda st, *a_, **k_: StS(st.poly * H, st.evolve_config))
+        npx = OpenSym("np", make=lambda t: Blob(t), allclose=lambda x, y, **k: abs(complex(x) - complex(y)) < 1e-9)
+        it = SymInterp(src, resolve, {"np": npx, "xp": npx, "compressed_sum": csum, "logger": Blob("logger"), "min_abs": min_abs, "CompressCriteria": Sym("CompressCriteria", threshold="t", both="b", fixed="f"),
+                                      "min": min, "max": max})
+        it.max_depth = 60
+        probs = []
+        T = 1.0
+        try:
+            res = it.call_function(ft, [me, hop, T])
+        except SymRaise as e:
+            res = None
+            probs.append(f"raises {e}")
+        if res is not None:
+            acc = [t for t in trials if t.get("dis", 1.0) < 1e-3]
+            tot = sum(t["dt"] for t in acc)
+            want = sp.Integer(1)
+            for t in acc:
+                want = sp.expand(want * sum(cs[k] * (-sp.I * sp.nsimplify(t["dt"], rational=False)) ** k * H ** k for k in range(order + 1)))
+            if abs(tot - T) > 1e-9:
+                probs.append(f"accepted sub-steps {[round(t['dt'], 6) for t in acc]} add up to {tot}, requested {T}")
+            diff = sp.expand(getattr(res, "poly", sp.nan) - want)
+            num = [abs(complex(c_)) for c_ in sp.Poly(diff, H, *cs).coeffs()] if diff != 0 else [0.0]
+            if not isinstance(res, StS) or max(num) > 1e-9:
+                probs.append(f"the result is not the product of the Taylor propagators of the accepted sub-steps {[round(t['dt'], 6) for t in acc]} (largest coefficient of the difference {max(num):.3g}; {len(trials) - len(acc)} rejected trials)")
+            if sp.expand(me.poly - 1) != 0:
+                probs.append("the input state is changed")
+        chk.ob(rule, f"Taylor evolver, adaptive [{name}]", not probs, ft.where, probs[:2] or f"{len(trials)} trials", "composition of the accepted sub-steps", line=ft.node.lineno,
+               detail="adaptive propagate-and-compress: a rejected trial that leaks into the state, or sub-steps that do not add up to the requested step, change the propagated time without any error: " + (probs[0] if probs else ""))
+        if rule_kind:
+            mixed = [k_ for k_ in kinds if k_[0] != k_[1]]
+            chk.ob(rule_kind, f"Taylor evolver, adaptive [{name}]: relative error", bool(kinds) and not mixed, ft.where, {"numerator / denominator": sorted(set(kinds))}, "same kind on both sides", line=ft.node.lineno,
+                   detail="the relative error that drives the adaptive step size divides a distance / norm without the scalar prefactor by one with it (or the reverse): the estimate is off by |coeff| "
+                          "and steps are accepted / rejected against a different tolerance whenever coeff != 1")
